@@ -53,7 +53,9 @@ def gen_case(r):
         refs = hist[i:i + take]
         i += take
         how = r.choice(["p", "p", "quote", "list", "table", "em", "link", "heading", "strong", "nested", "em-link", "em-link", "em-code", "strong-em-link"])
-        spell = ["[^%s]" % _variant(r, k) for k in refs]
+        # what follows a reference directly: nothing, punctuation, or the opening of another construct (for defined notes only:
+        # an undefined reference followed by a parenthesis is an ordinary link by CommonMark's rules)
+        spell = ["[^%s]%s" % (_variant(r, k), r.choice(["", "", "", "(see there)", "(x)", "[y]", ":", "!", "(/u 't')"]) if k in defs else "") for k in refs]
         body = " and ".join("t%d%s" % (len(blocks), s) for s in spell)
         # references before and inside a link that sits inside emphasis (the parser looks ahead at such links before it
         # has parsed the text in front of them), optionally with a code span that takes precedence over the emphasis
